@@ -595,6 +595,14 @@ def main(tier, replay=None):
         for a in ("EvalMin", "EvalMax", "EvalAbs", "EvalRamp", "EvalFric", "EvalLin"):
             if gen.action_counts.get(a, 0) == 0:
                 rep.machinery("design spec action %s was never taken" % a)
+        if tier != "quick":
+            # unbounded companion of the lattice run: Apalache / Z3 discharge the smoothed-min/max algebra for ALL integers and
+            # widths (plus a refuted negative control); a failure is a machinery error, never a VIOLATION
+            import subprocess
+            r = subprocess.run([common.SPECS + "/apalache/run_smoothfn.sh"], capture_output=True, text=True)
+            rep.coverage["apalache"] = [l for l in r.stdout.splitlines() if l.startswith("APALACHE")]
+            if r.returncode != 0:
+                rep.machinery("apalache check of SmoothFnAll.tla failed: %s" % r.stdout[-400:])
         obs = gen.payloads("OBS")
         rep.coverage["lattice_points_emitted_by_tlc"] = len(obs)
         rep.coverage["switch_points_emitted"] = sum(1 for o in obs if o["cls"] == "on")
